@@ -5,6 +5,7 @@ A case is JSON:
   BR   = {"items": [ITEM, ...], "split": [ALT, ...] | null}        first item is always a point
   ITEM = {"p": [sx, sy, sz, sr]} | {"color": "Red"} | {"comment": "text"}   (numbers as spelled strings "text=n/d")
        | {"long": [seed, count]}                                    a run of `count` generated points
+       | {"annot": [seed, count]}                                   `count` generated points, each followed by a long comment
   ALT  = null (an empty alternative) | BR
   BR may also be {"spine": [seed, depth, where]}: a generated spine of splits nested `depth` levels deep (hundreds to
   thousands), expanded by expand() to the plain form; `where` = first | middle | last | mixed says in which alternative of
@@ -90,6 +91,12 @@ def document(draw, tier):
             items.append({"long": [draw(st.integers(0, 2 ** 31 - 1)), draw(st.integers(2, 9))]})
             items.append({"comment": draw(long_text)})
         br = {"items": items, "split": [draw(branch(1, 3, 2)), None] if draw(st.booleans()) else None}
+    elif mode == 4:
+        # a tracing of 100-400 KB in which most of the text is comments: whatever block size a reader uses, comments lie
+        # across its block borders
+        count = draw(st.integers(700, 1200 if tier == "quick" else 3000))
+        br = {"items": [draw(point()), {"annot": [draw(st.integers(0, 2 ** 31 - 1)), count]}],
+              "split": [draw(branch(1, 3, 2)), None] if draw(st.booleans()) else None}
     elif mode == 3:
         # splits nested hundreds to thousands of levels deep ("at any nesting depth"): far beyond what an interpreter's
         # default recursion limit lets a reader recurse through
@@ -194,6 +201,14 @@ def tokens_and_table(case, strip_decor=False):
             elif "long" in it:
                 for vals in _long_points(*it["long"]):
                     cur = emit_point(vals, cur)
+            elif "annot" in it:
+                rs = np.random.RandomState(it["annot"][0] % (2 ** 32))
+                alphabet = list(" abcXYZ019().|;,+-eE")
+                for vals in _long_points(*it["annot"]):
+                    cur = emit_point(vals, cur)
+                    text = "".join(alphabet[j] for j in rs.randint(0, len(alphabet), size=int(rs.randint(60, 100))))
+                    if not strip_decor:
+                        toks.append(("comment", ";" + text + "\n"))
             elif "color" in it:
                 if not strip_decor:
                     toks.extend([("(", "("), ("word", "Color"), ("word", it["color"]), (")", ")")])
@@ -287,7 +302,7 @@ def stats(case):
 
     def walk(b, depth):
         out["depth"] = max(out["depth"], depth)
-        npts = sum(1 if "p" in it else it["long"][1] if "long" in it else 0 for it in b["items"])
+        npts = sum(1 if "p" in it else it["long"][1] if "long" in it else it["annot"][1] if "annot" in it else 0 for it in b["items"])
         out["longest"] = max(out["longest"], npts)
         if b["split"] is not None:
             alts = b["split"]
